@@ -242,8 +242,14 @@ def sample(ctx, budget=1.0, hint=None, broken=None):
         ref = ref_arc(start, rad, rot, large, sweep, end)
         size = max(abs(ref[1].real), abs(ref[1].imag), ch)
         tol = 1e-7 * size + 1e-9 * abs(start)
-        # end points
-        if abs(arc.point(0) - start) > tol or abs(arc.point(1) - end) > tol:
+        # end points.  Inside the snap band (0 < radicand < 1e-8, replaced by 0) the transformed end points are not unit vectors
+        # any more: sin(theta) is recomputed from cos(theta), so the end points move by up to sqrt(radicand)*r ~ 1e-4 r (finding F29)
+        in_band = ref[4] < 1 and (1 - ref[4]) / ref[4] < 1.5e-8
+        if (abs(arc.point(0) - start) > tol or abs(arc.point(1) - end) > tol) and in_band:
+            fail('Arc/snap-band: radicand below 1e-8 replaced by 0', 'radii within ~5e-9 (relative) above the minimal fitting radii: the centre is '
+                 'snapped to the chord midpoint and the end points move', {'arc': ctor}, repr((arc.point(0), arc.point(1))), repr((start, end)),
+                 '(%s.point(0), %s.point(1))' % (rep, rep))
+        elif abs(arc.point(0) - start) > tol or abs(arc.point(1) - end) > tol:
             fail('Arc.point/endpoints (%s)' % rcls, 'point(0)/point(1) are not start/end', {'arc': ctor}, repr((arc.point(0), arc.point(1))), repr((start, end)),
                  '(%s.point(0), %s.point(1))' % (rep, rep))
         # radii: unchanged, or enlarged by exactly the minimal factor
